@@ -1,4 +1,6 @@
+pub mod action;
 pub mod finalize;
 pub mod graph;
 pub mod reject;
 pub mod simrun;
+pub mod trx;
